@@ -91,6 +91,13 @@ func FromSpec(s *gram.Spec) *Grammar {
 				g.Undefined = append(g.Undefined, x)
 			}
 		}
+		// a name after %prec is a use of that symbol too (character literals need no declaration)
+		if x := r.Prec; x != "" && !gram.IsLit(x) {
+			if _, ok := g.ids[x]; !ok && !undefSeen[x] {
+				undefSeen[x] = true
+				g.Undefined = append(g.Undefined, x)
+			}
+		}
 	}
 	start := s.StartSymbol()
 	if i, ok := g.ids[start]; !ok || !g.IsNT[i] {
